@@ -153,19 +153,33 @@ def wsum(X, st, e):
 
 
 def wsum_fn(X, st, L):
+    """one uninterpreted function per (element array, time array, type array); recursion axioms; plus, for every pair of
+    such functions, the instances s=0,1 of lemma wsum_ext (proved by induction in contracts/lemmas.py) in both directions"""
     wait = X.ctx.enums["MessageType"].index("WAIT")
     el = st.heap["@el"][L.v]
-    key = ("wsum", el.get_id(), st.heap["time"].get_id(), st.heap["message_type"].get_id())
+    tm, ty = st.heap["time"], st.heap["message_type"]
+    key = ("wsum", el.get_id(), tm.get_id(), ty.get_id())
     cache = X.__dict__.setdefault("_specfn", {})
     if key not in cache:
         f = z3.Function(f"wsum{len(cache)}", I, I)
         k = z3.Int("k!ws")
-        w = z3.If(st.heap["message_type"][el[k]] == wait, st.heap["time"][el[k]], 0)
-        ax = z3.And(f(0) == 0, z3.ForAll([k], z3.Implies(k >= 0, f(k + 1) == f(k) + w), patterns=[f(k + 1)]))
-        cache[key] = (f, ax, el, st.heap["time"], st.heap["message_type"])
-    f, ax = cache[key][0], cache[key][1]
-    if not any(p is ax or p.eq(ax) for p in st.pc[-40:]):
-        st.pc.append(ax)
+        wf = lambda kk: z3.If(ty[el[kk]] == wait, tm[el[kk]], 0)
+        ax = [f(0) == 0, z3.ForAll([k], z3.Implies(k >= 0, f(k + 1) == f(k) + wf(k)), patterns=[f(k + 1)])]
+        n, j = z3.Int("n!ws"), z3.Int("j!ws")
+        for okey, (g, gax, wg) in list(cache.items()):
+            for (fa, wa, fb, wb) in ((g, wg, f, wf), (f, wf, g, wg)):
+                for s_ in (0, 1):
+                    hyp = z3.ForAll([j], z3.Implies(z3.And(0 <= j, j < n), wa(j) == wb(j + s_)))
+                    if s_ == 1:
+                        hyp = z3.And(hyp, wb(0) == 0)
+                    ax.append(z3.ForAll([n], z3.Implies(z3.And(n >= 0, hyp), fb(n + s_) == fa(n)), patterns=[fa(n)] if s_ == 0 else [fa(n), fb(n + 1)]))
+            X.notes.append("L: instances of lemma wsum_ext relate wait-sums across heap states")
+        cache[key] = (f, ax, wf)
+    f, ax, _ = cache[key]
+    have = {p.get_id() for p in st.pc}
+    for a in ax:
+        if a.get_id() not in have:
+            st.pc.append(a)
     return f
 
 
